@@ -80,6 +80,11 @@ add("C19", "metamorphic testing: generated trivia insertion at token gaps of gen
     "Tokens are the lexemes of the lexical grammar (a '-' glued to a digit is part of the number literal). Lines with a tab followed by another character inside one lexeme are exempt from the column check (documented implementation quirk pinned by position_test.go); comments carrying '@' tags are left alone (doc-comment semantics); repository programs importing anything but std/io are compiled but not executed.",
     "DESIGN.md §4 C19")
 
+add("C09", "metamorphic testing: generated programs vs. typed-AST rewrites R1-R4 at generated sites (rapid), native and wasm",
+    "Two generator families - the general well-typed program generator of C01 and a constant-rich family (named consts / never-reassigned lets / reassigned lets with literal and constant-expression initialisers incl. / % unary minus and casts, used as fixed- and dynamic-array indices also negated, range bounds and steps, match scrutinees, constant conditions, loop bounds, 8/16-bit wrap-around) - are rewritten at generated sites by R1 literal -> call, R2 pure subexpression -> fresh const before the statement, R3 never-modified let -> const, R4 statement run -> if true { }. Base and variant must both be accepted and print the same lines with the same termination (native executable or wasm module). Exploration.",
+    "Rewrites are applied only where they preserve meaning by construction (syntactic purity / non-modification analysis on the model AST); variants rejected solely by the documented constant-index rule T0028 are discarded; literal conditions and index literals are not rewritten.",
+    "DESIGN.md §4 C09")
+
 def main():
     props = [json.loads(l) for l in open(os.path.join(V, "properties.jsonl"))]
     checks, na = [], []
